@@ -15,7 +15,8 @@
    id apart: its text (what is compared with "gc_worker" / "" and what is stored in the JSON
    value) and the storage key it lands on.  An id whose key is not "its own" (".." lands on the
    cluster safe point key gc/safe_point, "x/../gc_worker" lands on gc_worker's key) is an ordinary
-   input of the model. *)
+   input of the model; since the fix "reject service ids that are not a single path element" such an
+   id is refused by Save/RemoveServiceGCSafePoint (id_ok). *)
 From Coq Require Import String.
 From PDV Require Import lib.Base lib.Skel gen.Gen_C15.
 Local Open Scope Z_scope.
@@ -66,16 +67,26 @@ Definition st_remove (k : skey) (st : store) : store :=
   | KOther => st
   end.
 
-(* Storage.SaveServiceGCSafePoint: None = error *)
-Definition save_service (k : skey) (e : entry) (st : store) : option store :=
+(* checkServiceID (storage.go): the id must be a single path element (no '/', not "." or ".."). For such an
+   id path.Join keeps it as the last element, so the id is stored under its own key; every other id is
+   refused by Save/RemoveServiceGCSafePoint. In the model: the ids that pass are exactly the clean ones. *)
+Definition is_clean (i : sid) : bool :=
+  match i with IGcw | IEmpty => true | IName z (KSvc n) => (z =? n) && negb (z =? 0) | IName _ _ => false end.
+Definition id_ok (i : sid) : bool := is_clean i.
+
+(* Storage.SaveServiceGCSafePoint of a request with id i: None = error *)
+Definition save_service (i : sid) (e : entry) (st : store) : option store :=
   match e_text e with
   | TEmpty => None
-  | TGcw => if e_exp e =? maxI64 then Some (st_save k e st) else None
-  | TName _ => Some (st_save k e st)
+  | TGcw => if negb (id_ok i) then None else if e_exp e =? maxI64 then Some (st_save (key_of i) e st) else None
+  | TName _ => if negb (id_ok i) then None else Some (st_save (key_of i) e st)
   end.
 (* Storage.RemoveServiceGCSafePoint *)
 Definition remove_service (i : sid) (st : store) : option store :=
-  match text_of i with TGcw => None | _ => Some (st_remove (key_of i) st) end.
+  match text_of i with
+  | TGcw => None
+  | _ => if id_ok i then Some (st_remove (key_of i) st) else None
+  end.
 
 (* Storage.LoadGCSafePoint: None = error *)
 Definition gc_read (g : gcv) : option Z := match g with GAbsent => Some 0 | GVal z => Some z | GBad => None end.
@@ -122,12 +133,50 @@ Definition svc_update (st : store) (i : sid) (ttl sp now : Z) : store * option r
       let '(st1, mn) := load_min now st0 in
       if (0 <? ttl) && (e_sp mn <=? sp) then
         let exp := if maxI64 - now <=? ttl then maxI64 else now + ttl in
-        match save_service (key_of i) (Entry (text_of i) exp sp) st1 with
+        match save_service i (Entry (text_of i) exp sp) st1 with
         | None => (st1, None)
         | Some st2 =>
             if text_eqb (text_of i) (e_text mn)
             then let '(st3, mn') := load_min now st2 in (st3, Some (resp_of mn' now))
             else (st2, Some (resp_of mn now))
+        end
+      else (st1, Some (resp_of mn now))
+  end.
+
+(* ---------- UpdateServiceGCSafePoint with what can slip into its locked section ----------
+   The REST delete (server/api/service_gc_safepoint.go) calls RemoveServiceGCSafePoint without the server lock, so it
+   can run between LoadMinServiceGCSafePoint and the request's own SaveServiceGCSafePoint; and that save can fail
+   (ErrNotApplied) or be applied although the handler sees an error (ErrApplied).  d1 = the keys of the (clean,
+   non-gc_worker) services deleted in that window, o = the storage outcome of the request's save. *)
+Inductive outcome := Ok | ErrNotApplied | ErrApplied.
+
+Fixpoint rest_dels (ks : list Z) (st : store) : store :=
+  match ks with
+  | [] => st
+  | k :: r => rest_dels r (if k =? 0 then st else st_remove (KSvc k) st)     (* gc_worker's entry is refused *)
+  end.
+
+Definition svc_update_il (st : store) (i : sid) (ttl sp now : Z) (d1 : list Z) (o : outcome) : store * option resp :=
+  match (if ttl <=? 0 then remove_service i st else Some st) with
+  | None => (st, None)
+  | Some st0 =>
+      let '(st1, mn) := load_min now st0 in
+      if (0 <? ttl) && (e_sp mn <=? sp) then
+        let exp := if maxI64 - now <=? ttl then maxI64 else now + ttl in
+        let E := Entry (text_of i) exp sp in
+        match save_service i E st1 with
+        | None => (st1, None)                                  (* refused before any storage operation *)
+        | Some _ =>
+            let st1' := rest_dels d1 st1 in
+            match o with
+            | ErrNotApplied => (st1', None)
+            | ErrApplied => (st_save (key_of i) E st1', None)
+            | Ok =>
+                let st2 := st_save (key_of i) E st1' in
+                if text_eqb (text_of i) (e_text mn)
+                then let '(st3, mn') := load_min now st2 in (st3, Some (resp_of mn' now))
+                else (st2, Some (resp_of mn now))
+            end
         end
       else (st1, Some (resp_of mn now))
   end.
@@ -147,7 +196,6 @@ Definition gc_locked : bool :=
   locked_before "LoadGCSafePoint" false skel_UpdateGCSafePoint && has_defer_unlock skel_UpdateGCSafePoint.
 
 (* ---------- the interleaving model ---------- *)
-Inductive outcome := Ok | ErrNotApplied | ErrApplied.
 
 Record thread := Thread { t_new : Z; t_old : Z; t_before : list Z }.
 
@@ -167,7 +215,7 @@ Inductive label :=
 | LGet                                 (* GetGCSafePoint *)
 | LSvc (i : sid) (ttl sp now : Z)      (* UpdateServiceGCSafePoint *)
 | LApiDel (i : sid)                    (* DELETE /gc/safepoint/{id} : RemoveServiceGCSafePoint, no lock *)
-| LSeed (i : sid) (exp sp : Z).        (* a raw entry found in storage (written by another leader / an older version) *)
+| LSeed (i : sid) (exp sp : Z).        (* a raw entry found below the service prefix (written by another leader / an older version) *)
 
 Definition set_sto (s : state) (st : store) : state := State st (thr s) (npend s) (acks s) (resps s).
 
@@ -209,7 +257,11 @@ Definition step_gen (locked : bool) (s : state) (l : label) : option state :=
       end
   | LSvc i ttl sp now => Some (set_sto s (fst (svc_update (sto s) i ttl sp now)))
   | LApiDel i => match remove_service i (sto s) with Some st => Some (set_sto s st) | None => Some s end
-  | LSeed i exp sp => Some (set_sto s (st_save (key_of i) (Entry (text_of i) exp sp) (sto s)))
+  | LSeed i exp sp =>
+      match key_of i with
+      | KSvc _ => Some (set_sto s (st_save (key_of i) (Entry (text_of i) exp sp) (sto s)))
+      | _ => Some s                                   (* raw entries are only ever found below the service prefix *)
+      end
   end.
 
 (* the code as it is now *)
@@ -223,6 +275,8 @@ Inductive op :=
 | OWake (t : nat)                        (* a request that was blocked on the mutex proceeds *)
 | OGet                                   (* GetGCSafePoint *)
 | OSvc (i : sid) (ttl sp now lo hi : Z)  (* UpdateServiceGCSafePoint; now = the TSO time the call used (inferred), [lo,hi] = wall clock bracket *)
+| OSvcIl (i : sid) (ttl sp now lo hi : Z) (d1 : list Z) (o : outcome)
+                                         (* UpdateServiceGCSafePoint whose own save is parked: REST deletes of d1 run, then the save gets outcome o *)
 | OApiDel (i : sid)
 | OSeed (i : sid) (exp sp : Z).           (* raw JSON entry put under the id's key, bypassing the handlers *)
 
@@ -275,7 +329,7 @@ Definition enter (rs : rstate) (t : nat) (v : Z) (park : bool) : rstate * obs :=
   | None =>
       match start_req s t v park with
       | Some (s', b) => ((s', q), b)
-      | None => ((s, app q [(t, (v, park))]), BBlocked)
+      | None => ((s, app q [(t, (v, true))]), BBlocked)     (* once through the mutex it is observed at its save (the driver parks it there) *)
       end
   end.
 
@@ -306,9 +360,18 @@ Definition run_op1 (rs : rstate) (o : op) : rstate * obs :=
       else
         let '(st', r) := svc_update (sto s) i ttl sp now in
         lift rs (set_sto s st', match r with Some x => BMin (r_text x) (r_ttl x) (r_sp x) | None => BErr end)
+  | OSvcIl i ttl sp now lo hi d1 oc =>
+      if (now <? lo - clock_slack) || (hi + clock_slack <? now) then (rs, BBad)
+      else
+        let '(st', r) := svc_update_il (sto s) i ttl sp now d1 oc in
+        lift rs (set_sto s st', match r with Some x => BMin (r_text x) (r_ttl x) (r_sp x) | None => BErr end)
   | OApiDel i =>
       match remove_service i (sto s) with Some st => lift rs (set_sto s st, BUnit) | None => (rs, BErr) end
-  | OSeed i exp sp => lift rs (set_sto s (st_save (key_of i) (Entry (text_of i) exp sp) (sto s)), BUnit)
+  | OSeed i exp sp =>
+      match key_of i with
+      | KSvc _ => lift rs (set_sto s (st_save (key_of i) (Entry (text_of i) exp sp) (sto s)), BUnit)
+      | _ => (rs, BUnit)
+      end
   end.
 
 Definition run_op (rs : rstate) (o : op) : rstate * (obs * view) :=
@@ -381,7 +444,7 @@ Definition resp_sig (fin esc : bool) : string :=
 Fixpoint mon_resp (fin esc : bool) (acked : list Z) (pend : list (nat * list Z)) (ops : list op) (obl : list (obs * view)) : option string :=
   match ops, obl with
   | o :: r, (b, _) :: br =>
-      let esc1 := esc || escapes_to_gc o in
+      let esc1 := esc || (escapes_to_gc o && negb (match b with BErr => true | _ => false end)) in   (* an escaping id that was not refused *)
       match o, b with
       | OUpd _ _, BResp x | OGet, BResp x | OBegin _ _, BResp x | OWake _, BResp x =>
           if all_le acked x then mon_resp fin esc1 (x :: acked) pend r br else Some (resp_sig fin esc1)
@@ -399,8 +462,6 @@ Fixpoint mon_resp (fin esc : bool) (acked : list Z) (pend : list (nat * list Z))
 Definition live_b (now : Z) (e : entry) : bool := (now <=? e_exp e)%Z.
 Definition find_text (t : stext) (l : list entry) : option entry := find (fun e => text_eqb (e_text e) t) l.
 Definition opt_entry_eqb := opt_eqb entry_eqb.
-Definition is_clean (i : sid) : bool :=
-  match i with IGcw | IEmpty => true | IName z (KSvc n) => (z =? n)%Z && negb (z =? 0)%Z | IName _ _ => false end.
 
 (* clauses 2-5 on every answered UpdateServiceGCSafePoint, from the storage views before and after it *)
 Definition mon_svc1 (pre : list entry) (o : op) (b : obs) (post : list entry) : option string :=
@@ -424,6 +485,16 @@ Definition mon_svc1 (pre : list entry) (o : op) (b : obs) (post : list entry) : 
       then Some "C15:expired-entry-survived"
       else if (ttl <=? 0)%Z && is_clean i && match find_text (text_of i) post with Some _ => true | None => false end
       then Some "C15:nonpositive-ttl-entry-survived"
+      else None
+  | OSvcIl i ttl sp now lo hi _ _, BMin mt mttl msp =>
+      if ((now <? lo - clock_slack) || (hi + clock_slack <? now))%Z
+      then Some "C15:answered-ttl-inconsistent-with-stored-expiry"
+      else if negb (forallb (fun e => negb (live_b now e) || (msp <=? e_sp e)%Z) post)
+      then Some "C15:min-above-live-service"
+      else if negb (existsb (fun e => is_gcw (e_text e) && (e_exp e =? maxI64)%Z) post)
+      then Some "C15:gc-worker-entry-missing-or-finite"
+      else if negb (forallb (live_b now) post)
+      then Some "C15:expired-entry-survived"
       else None
   | _, _ => None
   end.
